@@ -389,7 +389,7 @@ class C05(Prop):
                     for v in created:
                         try:
                             dofs.append([int(x) for x in es.dofs_of([v])])
-                        except ValueError:
+                        except (ValueError, AssertionError):
                             dofs.append(None)
                     owners = []
                     for i in range(n):
@@ -486,6 +486,8 @@ class C05(Prop):
                 ids = sh.parse(o[1])
                 if all(i in sh.alive for i in ids):
                     exp = blocks(ids)
+                    if k == "proj" and not o[1]:
+                        exp = []      # documented: no variables given -> empty projection
                     if k == "dofs":
                         if out != ["idx", exp]:
                             return where + f"dofs_of -> {str(out)[:200]}, expected {exp[:40]}"
@@ -583,7 +585,25 @@ class C05(Prop):
     @staticmethod
     def _cobs(o):
         k = o[0]
-        zl = lambda l: clist(l, cz)
+
+        def zl(l):
+            # maximal runs of consecutive integers (lossless), decoded by zruns in Coq
+            runs = []
+            for x in l:
+                if runs and x == runs[-1][0] + runs[-1][1]:
+                    runs[-1][1] += 1
+                else:
+                    runs.append([x, 1])
+            return "(zruns " + clist(runs, lambda r: f"({cz(r[0])}, {cz(r[1])})") + ")"
+
+        def orep(l):
+            reps = []
+            for x in l:
+                if reps and x == reps[-1][0]:
+                    reps[-1][1] += 1
+                else:
+                    reps.append([x, 1])
+            return "(orep " + clist(reps, lambda r: f"({coption(r[0], cz)}, {cz(r[1])})") + ")"
         if k == "done":
             return "BDone"
         if k == "created":
@@ -593,15 +613,17 @@ class C05(Prop):
         if k == "var":
             return f"BVarId {cz(o[1])}"
         if k == "proj":
+            if all(len(r) == 1 and r[0][1] == 1 for r in o[1]):
+                return f"BProjCols {zl([r[0][0] for r in o[1]])} {cz(o[2])}"
             rows = clist(o[1], lambda r: clist(r, lambda p: f"({cz(p[0])}, {cz(p[1])})"))
             return f"BProj {rows} {cz(o[2])}"
         if k == "vals":
-            return f"BVals {zl(o[1])}"
+            return f"BVals {clist(o[1], cz)}"
         if k == "num":
             return f"BNumDofs {cz(o[1])}"
         if k == "snap":
             dofs = clist(o[2], lambda d: coption(d, zl))
-            owners = clist(o[3], lambda d: coption(d, cz))
+            owners = orep(o[3])
             return f"BSnap {cz(o[1])} {dofs} {owners} {cbool(o[4])} {cbool(o[5])}"
         if k == "err":
             return f"BErr {o[1]}"
